@@ -22,6 +22,9 @@ def judge(run, trace_path, label):
             key, what = "collpath:%s:%s" % (ev["fn"], why), "%s(%r) = (%r, %r) err=%s" % (ev["fn"], ev.get("is"), ev["owner"].get("s"), ev["name"], ev["err"])
         elif ev["ev"] == "valid":
             key, what = "collpath:ValidCollectionIRI:%s" % why, "ValidCollectionIRI(%r) = %s" % (ev.get("is"), ev["res"])
+        elif ev["ev"] == "addto":
+            key = "collpath:AddTo:%s:%s" % (ev["kind"], why)
+            what = "%s.AddTo(%s id=%r, explicit %s) = (%r, %s), property afterwards %r" % (ev["c"], ev["kind"], ev.get("ids"), ev["explicit"]["k"], ev["res"].get("s"), ev["status"], ev["after"].get("s"))
         else:
             key = "collpath:%s:%s:%s:%s" % (ev["fn"], ev["kind"], "actor-box" if ev["c"] in ("inbox", "outbox", "followers", "following", "liked") else "object-coll", why)
             what = "%s.%s(%s id=%r, explicit %s=%r) = %r" % (ev["c"], ev["fn"], ev["kind"], ev.get("ids"), ev["explicit"]["k"], ev.get("exps"), ev["res"].get("s"))
